@@ -160,7 +160,7 @@ def capture_probe(ctx, probe, cov):
     body = (core.FLAT_HEADER + "From Polar Require Import PassIf PassIfK.\n"
             f"Definition p0 : prog := {src}.\nDefinition e0 : flatprog := {exp}.\n"
             'Eval vm_compute in [qnum (E (run no_law p0 1 st0) (fun s => s "y")); qnum (E (frun no_law e0 1 st0) (fun s => s "y"))].\n'
-            f"Eval vm_compute in (pass_if_check {k0} p0 e0 {P.lst(['true' if x else 'false' for x in flags])}).\n")
+            f"Eval vm_compute in (pass_if_check false {k0} p0 e0 {P.lst(['true' if x else 'false' for x in flags])}).\n")
     ok, out = lib.coq_run(ctx, "pif_capture", body, timeout=120)
     m = re.search(r"=\s*\[\s*\(?(-?\d+)\)?%Z;\s*\(?(-?\d+)\)?%Z\s*\]", out or "")
     mb = re.search(r"=\s*\[([^\]]*)\]\s*:\s*list bool", out or "")
@@ -203,6 +203,18 @@ def extra_runs(ctx):
     return out, errs, probe
 
 
+def _blist(txt):
+    return [x.strip() == "true" for x in txt.split(";") if x.strip()]
+
+
+def _nlist(txt):
+    return [int(re.sub(r"%nat", "", x).strip()) for x in txt.split(";") if x.strip()]
+
+
+RULES = {"old": "if_flatten_prog_old (every assignment of a branch gets the branch condition; theorems C02_if_flatten_old_rule_*)",
+         "new": "if_flatten_prog (auxiliary assignments _old/_t/_c stay unconditional; theorems C02_if_flatten_*)"}
+
+
 def run_pass(ctx, runs):
     t_start = time.time()
     ok, log = lib.coq_make(["theories/PassIfK.vo"])
@@ -238,7 +250,7 @@ def run_pass(ctx, runs):
             if not info["n_old"]:
                 k0 = r["counter_at_pass"]
         cases.append({"run": r, "src": src, "exp": exp, "k0": k0, "flags": flags, "info": info})
-    header = core.FLAT_HEADER + "From Polar Require Import PassIf PassIfK.\n"
+    header = core.FLAT_HEADER + "From Polar Require Import PassIf PassIfAux PassIfK.\n"
     files = []
     for b in range(0, len(cases), BATCH):
         body = header
@@ -249,8 +261,11 @@ def run_pass(ctx, runs):
                 continue
             fl = P.lst(["true" if x else "false" for x in c["flags"]])
             body += (f"Definition p{n} : prog := {c['src']}.\nDefinition e{n} : flatprog := {c['exp']}.\n"
-                     f"Eval vm_compute in (pass_if_check {c['k0']} p{n} e{n} {fl}).\n"
-                     f"Eval vm_compute in (pass_if_diag {c['k0']} p{n} e{n}).\n")
+                     f"Eval vm_compute in (pass_if_check false {c['k0']} p{n} e{n} {fl}).\n"
+                     f"Eval vm_compute in (pass_if_check true {c['k0']} p{n} e{n} {fl}).\n"
+                     f"Eval vm_compute in (aux_parts p{n}).\n"
+                     f"Eval vm_compute in (pass_if_diag false {c['k0']} p{n} e{n}).\n"
+                     f"Eval vm_compute in (pass_if_diag true {c['k0']} p{n} e{n}).\n")
         files.append((f"pif_{b // BATCH}", body))
     outs = lib.coq_run_many(ctx, files, timeout=170)
     results = {}
@@ -259,13 +274,34 @@ def run_pass(ctx, runs):
         bools = re.findall(r"=\s*\[([^\]]*)\]\s*:\s*list bool", out, re.S)
         nats = re.findall(r"=\s*\[([^\]]*)\]\s*:\s*list nat", out, re.S)
         live = [c for c in cases[b:b + BATCH] if c["exp"] is not None]
-        if not okc or len(bools) != len(live) or len(nats) != len(live):
+        if not okc or len(bools) != 3 * len(live) or len(nats) != 2 * len(live):
             for c in live:
                 results[c["idx"]] = ("coq-error", out[-1500:])
             continue
-        for c, bl, nl in zip(live, bools, nats):
-            results[c["idx"]] = ([x.strip() == "true" for x in bl.split(";") if x.strip()],
-                                 [int(re.sub(r"%nat", "", x).strip()) for x in nl.split(";") if x.strip()])
+        for j, c in enumerate(live):
+            results[c["idx"]] = {"old": (_blist(bools[3 * j]), _nlist(nats[2 * j])),
+                                 "new": (_blist(bools[3 * j + 1]), _nlist(nats[2 * j + 1])),
+                                 "aux_parts": _blist(bools[3 * j + 2])}
+    # ---- which rule does the tree under test follow?  decided by the instances on which the two models differ
+    votes = {"old": 0, "new": 0}
+    for c in cases:
+        res = results.get(c.get("idx"))
+        if not isinstance(res, dict) or len(res["old"][0]) != 5 or len(res["new"][0]) != 5:
+            continue
+        m_old = res["old"][0][0] and res["old"][0][1] and res["old"][0][2]
+        m_new = res["new"][0][0] and res["new"][0][1] and res["new"][0][2]
+        c["m"] = {"old": m_old, "new": m_new}
+        if m_old != m_new:
+            votes["old" if m_old else "new"] += 1
+    if votes["new"] > votes["old"]:
+        rule = "new"
+    elif votes["old"] > 0 or votes["new"] == 0:
+        rule = "old" if votes["old"] > 0 else "undetermined"
+    cov["rule"] = rule
+    cov["rule_votes"] = votes
+    cov["rule_model"] = RULES.get(rule, "both models agree with the code on every instance (no auxiliary assignment inside a branch)")
+    use = "new" if rule == "new" else "old"
+    cov["hypothesis_false"] = 0
     for c in cases:
         r, info = c["run"], c["info"]
         cov["instances"] += 1
@@ -278,27 +314,30 @@ def run_pass(ctx, runs):
         ctx.count({"pass_if": r["text"], "o": sorted(r["opts"].items())}, nontrivial=bool(info["n_ifs"]))
         sig = f"pass_if:{r['text']}:{sorted(r['opts'].items())}"
         replay = {"program_text": r["text"], "options": r["opts"], "pass": "IfTransformer", "counter_at_pass": c["k0"],
-                  "mutually_exclusive_flags": c["flags"], "correspondence": "PassIf.if_flatten_prog vs IfTransformer.execute",
+                  "mutually_exclusive_flags": c["flags"], "rule_of_the_tree": rule, "rule_votes": votes,
+                  "correspondence": f"PassIf.{'if_flatten_prog' if use == 'new' else 'if_flatten_prog_old'} vs IfTransformer.execute",
                   "polar_output": _polar_text(dict(r["snapshots"])["IfTransformer"])}
         if c["exp"] is None:
             ctx.violation(sig, replay, "IfTransformer left an if-statement in the program (model: flat list)\n" + r["text"], no_input=True)
             continue
         res = results.get(c["idx"])
-        if res is None or res[0] == "coq-error":
+        if not isinstance(res, dict):
             replay["coq_output"] = res[1] if res else None
             ctx.violation(sig, replay, "the IfTransformer model could not be evaluated on Polar's snapshot\n" + r["text"], no_input=True)
             continue
-        bools, nats = res
+        bools, nats = res[use]
         if len(bools) != 5:
             replay["coq_output"] = str(res)
             ctx.violation(sig, replay, "unexpected output of pass_if_check", no_input=True)
             continue
-        defined, init_eq, body_eq, flags_eq, wf = bools
+        defined, init_eq, body_eq, flags_eq, hyp = bools
         replay.update({"model_defined": defined, "init_equal": init_eq, "body_equal": body_eq, "flags_equal": flags_eq,
-                       "wf_prog": wf, "diag[len_model_init,len_polar_init,first_diff_init,len_model_body,len_polar_body,"
-                                      "first_diff_body,model_counter_after]": nats})
-        if not wf:
-            # hypothesis of the theorem violated by the INPUT (a source variable named _old...): outside the theorem
+                       "hypothesis(wf_prog | aux_ok_prog)": hyp, "aux_ok_parts[wf,mass,live]": res["aux_parts"],
+                       "matches": c.get("m"),
+                       "diag[len_model_init,len_polar_init,first_diff_init,len_model_body,len_polar_body,"
+                       "first_diff_body,model_counter_after]": nats})
+        if not res["aux_parts"][0]:
+            # a source variable named _old...: outside both theorems (see the capture probe)
             cov["skipped"]["wf-hypothesis-false"] = cov["skipped"].get("wf-hypothesis-false", 0) + 1
             continue
         if not defined:
@@ -311,30 +350,42 @@ def run_pass(ctx, runs):
         if not (init_eq and body_eq):
             where = "init" if not init_eq else "body"
             k = nats[2] if not init_eq else nats[5]
+            other = "new" if use == "old" else "old"
+            extra = (f"; this instance follows the OTHER rule ({other}) while {votes[use]} instances follow rule {use}: the tree mixes the rules"
+                     if c.get("m", {}).get(other) else "")
             ctx.violation(sig, replay,
-                          f"IfTransformer's output differs from the model PassIf.if_flatten_prog (the theorems of "
+                          f"IfTransformer's output differs from the model (rule={rule}: {RULES[use].split(' (')[0]}; the theorems of "
                           f"props/C02_IfTransformer.v no longer describe the code): first differing assignment #{k} of the {where} "
                           f"(model {nats[0 if not init_eq else 3]} assignments, Polar {nats[1 if not init_eq else 4]}), "
-                          f"counter at the pass {c['k0']}\n{r['text']}", no_input=True)
+                          f"counter at the pass {c['k0']}{extra}\n{r['text']}", no_input=True)
             continue
         if info.get("polar_counter_after") is not None and nats[6] != info["polar_counter_after"]:
             ctx.violation(sig, replay, f"counter after IfTransformer: model {nats[6]}, Polar {info['polar_counter_after']}\n{r['text']}",
                           no_input=True)
             continue
         cov["matched"] += 1
+        if not hyp:
+            # model = code, but the theorem's boolean hypothesis fails on this input (new rule: mass / liveness)
+            cov["hypothesis_false"] += 1
+            if len(cov.setdefault("hypothesis_false_on", [])) < 3:
+                cov["hypothesis_false_on"].append({"program": r["text"], "options": r["opts"], "aux_ok_parts[wf,mass,live]": res["aux_parts"]})
+            continue
         ctx.coverage["discharged"] += 1
         if info["n_old"] and len([s for s in ctx.coverage["samples"] if "if_flatten" in str(s)]) < 1:
-            ctx.sample({"program": r["text"], "if_flatten_equals_IfTransformer_output": True, "counter": c["k0"],
+            ctx.sample({"program": r["text"], "if_flatten_equals_IfTransformer_output": True, "rule": rule, "counter": c["k0"],
                         "old_copies": info["n_old"], "if_statements": info["n_ifs"]})
     cov["wall_s"] = round(time.time() - t_start, 1)
-    print(f"  [pass IfTransformer] instances={cov['instances']} model==polar={cov['matched']} with_if={cov['with_if']} "
+    print(f"  [pass IfTransformer] rule={rule} (votes {votes}) instances={cov['instances']} model==polar={cov['matched']} "
+          f"hypothesis_false={cov['hypothesis_false']} with_if={cov['with_if']} "
           f"with_old_copies={cov['with_old_copies']} mutex_statements={cov['mutex_statements']} skipped={cov['skipped']} "
           f"wall={cov['wall_s']}s", flush=True)
     print(f"  [pass IfTransformer] hypothesis wf_prog on the code: {cov['capture_probe'].get('outcome')}", flush=True)
     ctx.coverage["trusted_base"] += [
         "harness/pass_if.py + harness/core.py: conversion of the DistTransformer/IfTransformer snapshots into Syntax.prog / "
         "Syntax.flatprog (polynomials expanded by sympy in tasks_core.dump_expr; equality up to PassIfK.expr_eqn, proved sound)",
-        "PassIf.mutex_shape stands for IfStatem.mutually_exclusive (compared with Polar's flag on every instance)"]
-    ctx.assumptions += ["IfTransformer: theorem for the model if_flatten (all blocks, states, iterations); model = code checked "
-                        "syntactically on every analysed program; hypothesis wf_prog (no input variable named _old...) is not "
-                        "enforced by Polar's parser"]
+        "PassIf.mutex_shape stands for IfStatem.mutually_exclusive (compared with Polar's flag on every instance)",
+        "PassIf.is_aux (names _old.., _t<digits>, _c<digits>) stands for Assignment.auxiliary of the proposed rule"]
+    ctx.assumptions += [f"IfTransformer: the tree follows rule={rule}; theorem for that model (all blocks, states, iterations); model = code "
+                        "checked syntactically on every analysed program; hypothesis wf_prog (no input variable named _old...) is not "
+                        "enforced by Polar's parser; new rule: aux_ok (mass 1 of auxiliary right-hand sides, auxiliaries assigned "
+                        "before read) evaluated on every instance"]
